@@ -56,6 +56,25 @@ BackwardGivesShape ==
            /\ back.ok
            /\ PlanWellFormed(target, subs, Plan(back))
            /\ ShapeOfAxes(ApplyPlan(target, subs, Plan(back))) = shape
+\* SPARSE fused axes: after the forward trip a fused axis of a sparse array can be SMALLER than the product of its
+\* pieces.  For every way of shrinking the fused axes (by 1, or to the size of their first piece) the way back, the
+\* identity and the insertion of a unit axis must still be planned correctly.
+Shrunk(ax, how) ==
+  [i \in 1..Len(ax) |->
+     IF ax[i].sub = <<>> THEN ax[i]
+     ELSE [ax[i] EXCEPT !.d = IF how = 1 THEN (IF @ > 1 THEN @ - 1 ELSE @) ELSE ax[i].sub[1]]]
+PlanGives(sh, subs, tgt) ==
+  LET r == CalcReshapeArgs(sh, tgt, subs) IN
+  r.ok /\ PlanWellFormed(sh, subs, Plan(r)) /\ ShapeOfAxes(ApplyPlan(sh, subs, Plan(r))) = tgt
+SparseFusedAxes ==
+  (Forward.ok /\ PlanWellFormed(shape, None(shape), Plan(Forward)) /\ target # <<>>)
+     => \A how \in {1, 2} :
+          LET ax == Shrunk(ApplyPlan(shape, None(shape), Plan(Forward)), how)
+              sh == ShapeOfAxes(ax)
+              subs == [i \in 1..Len(ax) |-> ax[i].sub]
+          IN /\ PlanGives(sh, subs, shape)                                    \* the way back (unfuse)
+             /\ PlanGives(sh, subs, sh)                                       \* the identity
+             /\ \A p \in 0..Len(sh) : PlanGives(sh, subs, Ins1(sh, p))        \* one unit axis inserted
 \* the documented known finding is still there (if this fails the routine was repaired: update the findings)
 KnownF09 == AllUnitsToScalar => ~Forward.ok
 =============================================================================
